@@ -16,13 +16,21 @@ def menu(tier):
                     scn.append(S.mk(f'{inp}/{mname}/{strat}/j{j}', inp,
                                     model, strat, j, budget=0))
     # (2) formats and comparisons (budget 0, j=2)
+    import os
+    seed = int(os.environ.get('VERIF_SEED', '0') or 0)
+    k = 0
     for inp, model in S.STREAMS.items():
         for strat in S.STRATEGIES:
             for cmpo in S.COMPARISONS:
                 for fmt in S.FORMATS:
+                    k += 1
+                    # a third of this family (rotated by VERIF_SEED; all of
+                    # it in thorough) also gets all schedules with one
+                    # deviation
+                    b = 1 if (tier == 'thorough' or k % 3 == seed % 3) else 0
                     scn.append(S.mk(
                         f'{inp}/streams/{strat}/{"".join(cmpo + fmt)}', inp,
-                        model, strat, 2, cmpo + fmt, budget=0))
+                        model, strat, 2, cmpo + fmt, budget=b))
     # cross check
     for strat in S.STRATEGIES:
         for ccopt in ([], ['--ignore-output-cc'], ['--match-out-cc', 'A']):
